@@ -53,7 +53,8 @@ func C02(r *core.Run) {
 		"(R02.1) every bucket-scoped storage call in a handler is dominated by a checked ensureBucketExists on that bucket; " +
 		"(R02.2) every Backend/VersionedBackend method of every implementation can return the error code its contract mandates (NoSuchBucket, NoSuchKey, BucketAlreadyExists, BucketNotEmpty, NoSuchVersion); " +
 		"(R02.3) no delete operation can return NoSuchKey (idempotence); (R02.4) every ErrorCode used has an explicit HTTP status and the five codes of the property map to 404/409, every handler error reaches httpError, ensureErrorResponse is total; " +
-		"(R02.5) CopyObject wires source to destination with the fetched object's contents, size and hash; (R02.6) bucket removal happens only on the non-empty-test's empty arm."
+		"(R02.5) CopyObject wires source to destination with the fetched object's contents, size and hash; (R02.6) bucket removal happens only on the non-empty-test's empty arm; " +
+		"(R01.2, shared) every PutObject replaces the stored bytes by one consumption of the input (fs: truncating open of the object path); (R10.7, shared) object deletion is never recursive."
 	r.NotDecided = "read-your-writes, overwrite/copy value semantics, agreement of whole responses with a reference model, auto-bucket behaviour"
 	rule021(r)
 	rule022(r)
@@ -61,6 +62,10 @@ func C02(r *core.Run) {
 	rule024(r)
 	rule025(r)
 	rule026(r)
+	// shared necessary conditions of "reads return the most recent acknowledged
+	// write" and "a delete affects only the addressed key"
+	rule012(r)
+	rule107(r)
 }
 
 // handler exceptions for R02.1, one reason each
